@@ -888,6 +888,9 @@ func (c *CharClassMatcher) parse() {
 	// content of char class is necessarily valid, so escapes are correct
 	r := strings.NewReader(raw)
 	var chars []rune
+	// escaped[i] reports whether chars[i] was written as an escape sequence:
+	// an escaped '-' (e.g. \x2d) is a character, never the range operator
+	var escaped []bool
 	var buf bytes.Buffer
 outer:
 	for {
@@ -903,6 +906,7 @@ outer:
 			switch rn {
 			case ']':
 				chars = append(chars, rn)
+				escaped = append(escaped, true)
 				continue
 
 			case 'p':
@@ -940,9 +944,11 @@ outer:
 			}
 			rn, _, _, _ = strconv.UnquoteChar("\\"+buf.String(), 0)
 			chars = append(chars, rn)
+			escaped = append(escaped, true)
 
 		default:
 			chars = append(chars, rn)
+			escaped = append(escaped, false)
 		}
 	}
 
@@ -956,7 +962,7 @@ outer:
 			continue
 		}
 
-		if r == '-' && !wasRange && len(c.Chars) > 0 && i < len(chars)-1 {
+		if r == '-' && !escaped[i] && !wasRange && len(c.Chars) > 0 && i < len(chars)-1 {
 			inRange = true
 			wasRange = false
 			// start of range is the last Char added
